@@ -1,3 +1,4 @@
+from copy import copy
 import enum
 import logging
 import os
@@ -62,7 +63,9 @@ class Loader(yaml.SafeLoader):
         """
         node = cast(yaml.Node, super().get_single_node())
         if node is not None:
-            node = self.__process_node(node, type(self).document_type)
+            node = self.__process_node(
+                    self.__expand_aliases(node, []),
+                    type(self).document_type)
         return node
 
     def get_node(self) -> yaml.Node:
@@ -77,8 +80,44 @@ class Loader(yaml.SafeLoader):
         """
         node = cast(yaml.Node, super().get_node())
         if node is not None:
-            node = self.__process_node(node, type(self).document_type)
+            node = self.__process_node(
+                    self.__expand_aliases(node, []),
+                    type(self).document_type)
         return node
+
+    def __expand_aliases(
+            self, node: yaml.Node, parents: List[yaml.Node]) -> yaml.Node:
+        """Replaces aliases by copies of the nodes they refer to.
+
+        PyYAML represents an alias by a second reference to the
+        anchored node. Nodes are modified in place while they are
+        processed, each according to the type expected at its position,
+        so a node that is referred to more than once must not be
+        shared.
+
+        Args:
+            node: The node to expand.
+            parents: The nodes that (indirectly) contain this one.
+
+        Returns:
+            A tree in which each node object occurs exactly once.
+        """
+        if any(node is parent for parent in parents):
+            raise RecognitionError(
+                    '{}\nRecursive aliases are not supported'.format(
+                        node.start_mark))
+        new_node = copy(node)
+        parents = parents + [node]
+        if isinstance(node, yaml.SequenceNode):
+            new_node.value = [
+                    self.__expand_aliases(item, parents)
+                    for item in node.value]
+        elif isinstance(node, yaml.MappingNode):
+            new_node.value = [(
+                    self.__expand_aliases(key_node, parents),
+                    self.__expand_aliases(value_node, parents))
+                    for key_node, value_node in node.value]
+        return new_node
 
     def construct_object(self, node: yaml.Node, deep: bool = False) -> Any:
         """Constructs an object, reporting failures as RecognitionError.
